@@ -152,6 +152,8 @@ impl StateMachine {
     pub(crate) async fn run(mut self, ctx: &ctx::Ctx) -> ctx::Result<()> {
         tracing::trace!("Starting ChonkyBFT replica.");
         self.view_start = ctx.now();
+        #[cfg(era_consensus_verif)]
+        crate::verif::emit(&self, crate::verif::Event::Start);
 
         // If this is the first view, we immediately timeout. This will force the replicas
         // to synchronize right at the beginning and will provide a justification for the
@@ -160,6 +162,8 @@ impl StateMachine {
         if self.view_number == validator::ViewNumber(0) {
             tracing::trace!("ChonkyBFT replica - Starting view 0, immediately timing out.");
             self.start_timeout(ctx).await?;
+            #[cfg(era_consensus_verif)]
+            crate::verif::emit(&self, crate::verif::Event::Timeout);
         }
 
         // Main loop.
@@ -177,11 +181,15 @@ impl StateMachine {
             // Check for timeout.
             let Some(req) = recv.ok() else {
                 self.start_timeout(ctx).await?;
+                #[cfg(era_consensus_verif)]
+                crate::verif::emit(&self, crate::verif::Event::Timeout);
                 continue;
             };
 
             // Process the message.
             let now = ctx.now();
+            #[cfg(era_consensus_verif)]
+            let verif_msg = (req.msg.msg.label(), req.msg.msg.view_number().0);
 
             // Unwrap the v2 message from the others.
             #[allow(irrefutable_let_patterns)]
@@ -202,6 +210,8 @@ impl StateMachine {
                     {
                         Ok(()) => Ok(()),
                         Err(err) => {
+                            #[cfg(era_consensus_verif)]
+                            crate::verif::note_err(&err);
                             match err {
                                 // If the error is internal, we stop here.
                                 proposal::Error::Internal(err) => {
@@ -241,6 +251,8 @@ impl StateMachine {
                     {
                         Ok(()) => Ok(()),
                         Err(err) => {
+                            #[cfg(era_consensus_verif)]
+                            crate::verif::note_err(&err);
                             match err {
                                 // If the error is internal, we stop here.
                                 commit::Error::Internal(err) => {
@@ -280,6 +292,8 @@ impl StateMachine {
                     {
                         Ok(()) => Ok(()),
                         Err(err) => {
+                            #[cfg(era_consensus_verif)]
+                            crate::verif::note_err(&err);
                             match err {
                                 // If the error is internal, we stop here.
                                 timeout::Error::Internal(err) => {
@@ -319,6 +333,8 @@ impl StateMachine {
                     {
                         Ok(()) => Ok(()),
                         Err(err) => {
+                            #[cfg(era_consensus_verif)]
+                            crate::verif::note_err(&err);
                             match err {
                                 // If the error is internal, we stop here.
                                 new_view::Error::Internal(err) => {
@@ -352,6 +368,8 @@ impl StateMachine {
                 }
             };
             metrics::METRICS.message_processing_latency[&label].observe_latency(ctx.now() - now);
+            #[cfg(era_consensus_verif)]
+            crate::verif::emit_handled(&self, verif_msg.0, verif_msg.1);
 
             // Notify network component that the message has been processed.
             // Ignore sending error.
